@@ -33,6 +33,8 @@ def gen_value(rng: random.Random, ty: str, spread: int):
         if r < 0.93:
             return -rng.randint(1, spread)                       # accepted by the (vacuous) sign check
         return rng.choice([2**62, 2**62 + 1, 10**14, 83010348331692]) + rng.randint(0, 3)   # int64 wrap in _spread
+    if ty == "float32":                                          # exactly representable in float32 (and float64)
+        return rng.randint(-spread * 4, spread * 16) / 16
     if ty == "float":
         r = rng.random()
         if r < 0.6:
@@ -48,39 +50,137 @@ def gen_value(rng: random.Random, ty: str, spread: int):
     return -rng.randint(1, spread * 24) * 3600 * 10**9 - 10**9   # before 1970: negative ten-digit integer
 
 
-def gen_history(rng: random.Random, tier: str, dup_rate: float, n_batches=None, types=None, size=None):
+MODES = ["plain"] * 8 + ["trickle"] * 4 + ["dense"] * 3 + ["chain"] * 3 + ["badtype"] * 2
+SMALL_INT = {"int8": (-128, 127), "uint8": (0, 255), "int32": (-2**31, 2**31 - 1), "uint32": (0, 2**32 - 1)}
+
+
+def _f32_exact(x: float) -> bool:
+    import struct
+    try:
+        return struct.unpack("f", struct.pack("f", x))[0] == x
+    except OverflowError:
+        return False
+
+
+def chain_keys(rng: random.Random, ncols: int, size: int, t: int, occupied_hint=()):
+    """Integer keys aimed (with the pure-Python reference hash) at higher-order collisions inside ONE batch: a group
+    sharing its first hash, members that also share the salt-1 hash, and 'bystanders' – keys whose own first hash is
+    free and unshared but equals the salt-1 / salt-2 hash of a group member, i.e. a re-hash lands on them
+    (LESSONS.md 9; the conjunction behind seeded C04-1)."""
+    fixed = [rng.randint(0, 9) for _ in range(ncols - 1)]
+    cand = [[v] + fixed for v in rng.sample(range(0, 6000), 1500)]
+    h = {tuple(k): (ic.ref_hash_int(k, t, size), ic.ref_hash_int(k, 1, size), ic.ref_hash_int(k, 2, size)) for k in cand}
+    by_first = {}
+    for k in cand:
+        by_first.setdefault(h[tuple(k)][0], []).append(k)
+    p = rng.choice(sorted(by_first, key=lambda q: (-len(by_first[q]), q))[:3])
+    group = sorted(by_first[p], key=lambda k: (h[tuple(k)][1], k))[: rng.randint(3, 5)]      # same salt-1 hash first
+    taken = {p}
+    bystanders = []
+    for m in group[1:]:
+        for lvl in (1, 2):
+            q = h[tuple(m)][lvl]
+            if q in taken or q in occupied_hint:
+                continue
+            pool = [k for k in by_first.get(q, []) if k not in group]
+            if pool and rng.random() < 0.8:
+                bystanders.append(rng.choice(pool))
+                taken.add(q)
+    return group, bystanders
+
+
+def gen_history(rng: random.Random, tier: str, dup_rate: float, n_batches=None, types=None, size=None, mode=None):
+    """one registration history; `mode` picks the shape (LESSONS.md 9: rare conjunctions get their own mode):
+    plain – 1-6 batches of random sizes; trickle – a dense first batch, then many batches of 1-2 simulants;
+    dense – a small block filled to 80-100 % (exactly full included); chain – aimed higher-order collisions inside
+    one batch (integer keys, integer clock); badtype – a batch with an unhashable key column in between."""
+    mode = mode or rng.choice(MODES)
     ncols = rng.choice([1, 1, 2, 2, 3])
+    if mode == "chain":
+        types = types or ["int"] * rng.choice([1, 1, 2])
     types = types or [rng.choice(["int", "int", "float", "time"]) for _ in range(ncols)]
     ncols = len(types)
     hi = 200 if tier == "quick" else 600
-    size = size or rng.choice(ic.coprime_sizes(ncols, 5, hi))
+    if size is None:
+        if mode == "dense":
+            size = rng.choice(ic.coprime_sizes(ncols, 2, 31))
+        elif mode == "chain":
+            size = rng.choice(ic.coprime_sizes(ncols, 8, 60))
+        else:
+            size = rng.choice(ic.coprime_sizes(ncols, 5, hi))
     nb = n_batches or rng.randint(1, 6)
     fill = rng.choice([0.25, 0.4, 0.55, 0.7, 0.8])              # final load factor: drives the collision rate
+    if mode == "dense":
+        fill = rng.choice([0.8, 0.9, 1.0, 1.0])                  # 1.0: the block ends exactly full
+        nb = n_batches or rng.randint(1, 3)
+    if mode == "chain":
+        fill = 0.75
+        nb = n_batches or rng.randint(1, 3)
     total = max(1, int(size * fill))
     tunit = rng.choice(["ns", "ns", "ns", "us", "us", "s"])
     if tunit == "s" and "time" in types:
         total = min(total, 12)      # second resolution: pandas 3 + _clip_to_seconds send every datetime to ±1 – all keys collide
     spread = max(3, int(total * rng.choice([0.7, 1.5, 4])) // max(1, ncols - 1 + 1))
-    clock = rng.choice(["time", "time", "int"])
-    t = T0 if clock == "time" else rng.randint(0, 5)
+    clock = "int" if mode == "chain" else rng.choice(["time"] * 8 + ["int"] * 5 + ["float", "float", "npint", "tz", "tz"])
+    if clock in ("time", "tz"):
+        t = T0
+    elif clock == "float":
+        t = rng.choice([0.0, 0.5, 2.25])
+    else:
+        t = rng.randint(0, 5)
+    gtypes = ["float32" if ty == "float" and rng.random() < 0.25 else ty for ty in types]    # value generators per column
+    # simulant labels: increasing with gaps, or dealt from a shuffled pool so that later batches interleave with earlier ones
+    pool = None
+    if rng.random() < 0.4:
+        pool = list(range(0, 3 * total + 20))
+        rng.shuffle(pool)
     seen, batches, next_sim = set(), [], rng.choice([0, 0, 7, 1000])
+    registered_sims, rejected_sims = [], []
     left = total
-    for b in range(nb):
-        n = max(1, left // (nb - b)) if b == nb - 1 else rng.randint(1, max(1, 2 * left // (nb - b)))
-        n = min(n, left)
+    if mode == "trickle":
+        first = max(1, int(total * rng.choice([0.5, 0.65, 0.8])))
+        sizes = [first]
+        while sum(sizes) < total and len(sizes) < 14:
+            sizes.append(rng.choice([1, 1, 1, 2]))
+    elif mode == "chain":
+        sizes = None
+    else:
+        sizes = None
+    b = 0
+    while True:
+        if sizes is not None:
+            if b >= len(sizes):
+                break
+            n = min(sizes[b], left)
+        else:
+            if b >= nb:
+                break
+            n = max(1, left // (nb - b)) if b == nb - 1 else rng.randint(1, max(1, 2 * left // (nb - b)))
+            n = min(n, left)
         if n <= 0:
             break
-        malformed = rng.random() < dup_rate
+        malformed = rng.random() < dup_rate and mode != "chain"
         keys, local = [], set()
+        if mode == "chain":
+            if b < nb - 1:
+                n = min(left, rng.randint(1, max(1, total // 6)))          # a few earlier simulants
+            else:
+                group, by = chain_keys(rng, ncols, size, int(t))
+                aimed = [k for k in group + by if ic.canon_key(types, k) not in seen][: max(2, left - 1)]
+                for k in aimed:
+                    local.add(ic.canon_key(types, k))
+                keys = aimed
+                rng.shuffle(keys)
+                n = min(left, len(keys) + rng.randint(0, 3))
         tries = 0
         while len(keys) < n and tries < 50 * n:
             tries += 1
-            k = [gen_value(rng, ty, spread) for ty in types]
+            k = [gen_value(rng, ty, spread) for ty in gtypes] if mode != "chain" else [rng.randint(0, 6000)] + [rng.randint(0, 9) for _ in range(ncols - 1)]
             ck = ic.canon_key(types, k)
             if ck in seen or ck in local:
                 continue
             local.add(ck)
-            keys.append(k)
+            keys.insert(rng.randint(0, len(keys)), k) if mode == "chain" else keys.append(k)
         if malformed and keys:
             # duplicate inside the batch, or a key that is already registered
             if seen and rng.random() < 0.5:
@@ -93,30 +193,110 @@ def gen_history(rng: random.Random, tier: str, dup_rate: float, n_batches=None, 
                 keys[0] = list(rng.choice(sorted(seen, key=str)))
             else:
                 keys = [keys[0], list(keys[0])]
-        sims = list(range(next_sim, next_sim + len(keys)))
-        next_sim += len(keys) + rng.choice([0, 0, 3])
-        if rng.random() < 0.5:
-            rng.shuffle(sims)
+        if pool is not None and len(pool) >= len(keys):
+            sims = [pool.pop() for _ in keys]
+        else:
+            pool = None
+            next_sim = max([next_sim] + [x + 1 for x in registered_sims + rejected_sims])
+            sims = list(range(next_sim, next_sim + len(keys)))
+            next_sim += len(keys) + rng.choice([0, 0, 3])
+            if rng.random() < 0.5:
+                rng.shuffle(sims)
         cks = [ic.canon_key(types, k) for k in keys]
         ok = len(set(cks)) == len(cks) and not (set(cks) & seen)
         batch = {"t": [clock, t], "sims": sims, "keys": keys, "get": None}
+        # the frame the keys arrive in (LESSONS.md 2, 3): column order, extra columns, index kind and name
+        fr = {}
+        if ncols > 1 and rng.random() < 0.3:
+            order = list(range(ncols))
+            rng.shuffle(order)
+            fr["order"] = order
+        if rng.random() < 0.25:
+            fr["extra"] = True
+        if rng.random() < 0.2:
+            fr["index_name"] = rng.choice(["foo", "simulant_index", "index"])
+        if rng.random() < 0.3:
+            fr["range"] = True
+        if fr:
+            batch["frame"] = fr
+        if mode == "badtype" and b == max(1, nb // 2) and ok:
+            # same keys, but one column arrives with a dtype IndexMap cannot hash: must be rejected, map unchanged
+            batch["bad"] = {"col": rng.randrange(ncols), "dtype": rng.choice(["bool", "str", "category"])}
+            ok = False
         if ok:
             seen |= set(cks)
             left -= len(keys)
-        known = [s for bb in batches for s in bb["sims"]] + sims
+            registered_sims += sims
+        else:
+            rejected_sims += sims
+        # lookups (LESSONS.md 5): all registered simulants in a permuted order, repeats, partial, reversed, empty,
+        # a contiguous run as RangeIndex, every container; or a request containing a never-registered label
         r = rng.random()
-        if r < 0.5:
-            batch["get"] = [rng.choice(known) for _ in range(rng.randint(0, 5))]
-        elif r < 0.6:
-            batch["get"] = [rng.choice(known), next_sim + 50]       # unknown simulant → KeyError
+        if registered_sims and r < 0.55:
+            kind = rng.choice(["perm-all", "repeat", "partial", "reversed", "run", "empty"])
+            if kind == "perm-all":
+                req = rng.sample(registered_sims, len(registered_sims))
+            elif kind == "repeat":
+                req = [rng.choice(registered_sims) for _ in range(rng.randint(2, 8))]
+            elif kind == "partial":
+                req = rng.sample(registered_sims, rng.randint(1, len(registered_sims)))
+            elif kind == "reversed":
+                req = sorted(registered_sims, reverse=True)
+            elif kind == "run":
+                srt = sorted(registered_sims)
+                a = rng.randrange(len(srt))
+                req = [srt[a]]
+                while a + 1 < len(srt) and srt[a + 1] == req[-1] + 1 and len(req) < 6:
+                    a += 1
+                    req.append(srt[a])
+            else:
+                req = []
+            batch["get"] = req[:40]
+            batch["get_kind"] = rng.choice(["index", "index", "int32", "range", "list", "array", "series"])
+        elif r < 0.7:
+            unknown = rng.choice(rejected_sims) if rejected_sims and rng.random() < 0.5 else max(registered_sims + rejected_sims + [0]) + 50
+            batch["get"] = ([rng.choice(registered_sims)] if registered_sims else []) + [unknown]
+            batch["get_kind"] = rng.choice(["index", "list", "array"])
         batches.append(batch)
-        if rng.random() < 0.8:
-            t += DAY * rng.randint(1, 3) if clock == "time" else rng.randint(1, 3)
-    return {"kind": "hist", "size": size, "cols": types, "tunit": tunit, "batches": batches}
+        b += 1
+        if rng.random() < 0.05 and mode == "plain":
+            t -= DAY if clock in ("time", "tz") else 1            # legal for the index: an earlier clock time than before
+        elif rng.random() < 0.8:
+            if clock in ("time", "tz"):
+                t += DAY * rng.randint(1, 3)
+            elif clock == "float":
+                t += rng.choice([0.5, 1.0, 0.25])
+            else:
+                t += rng.randint(1, 3)
+    hist = {"kind": "hist", "mode": mode, "size": size, "cols": types, "tunit": tunit, "batches": batches}
+    # column names (LESSONS.md 10; F31): names of a real model, and the name IndexMap gives its own index level
+    r = rng.random()
+    if r < 0.2:
+        names = rng.sample(["age", "sex_id", "entrance_time", "location_id"], ncols)
+        names[rng.randrange(ncols)] = "simulant_index"
+        hist["names"] = names
+    elif r < 0.3:
+        hist["names"] = rng.sample(["age", "sex_id", "entrance_time", "location_id", "index", "tracked"], ncols)
+    # dtypes (LESSONS.md 3): narrow / unsigned integers and float32 wherever every value of the column fits exactly
+    dts = []
+    for j, ty in enumerate(types):
+        vals = [k[j] for bb in batches for k in bb["keys"]]
+        dt = None
+        if ty == "int" and vals and rng.random() < 0.35:
+            fits = [d for d, (lo, hi_) in SMALL_INT.items() if all(lo <= v <= hi_ for v in vals)]
+            dt = rng.choice(fits) if fits else None
+        elif ty == "float" and vals and rng.random() < 0.8 and all(_f32_exact(v) for v in vals):
+            dt = "float32"
+        dts.append(dt)
+    if any(dts):
+        hist["dtypes"] = dts
+    return hist
 
 
 def oracle_history(hist, obs, label=""):
-    """The property on the observed behaviour of one map (no model involved)."""
+    """The property on the observed behaviour of one map (no model involved). Expectations come from the case (keys,
+    labels, block size) and the property text; positions are the ones `__getitem__` returns (the public observation
+    point), `_map` is only cross-checked against them."""
     fails = []
     types, size = hist["cols"], hist["size"]
     if not types:
@@ -125,101 +305,167 @@ def oracle_history(hist, obs, label=""):
     for bi, (b, rec) in enumerate(zip(hist["batches"], obs)):
         cks = [ic.canon_key(types, k) for k in b["keys"]]
         dup = len(set(cks)) != len(cks) or bool(set(cks) & registered)
-        cur = None if rec["map"] is None else {s: p for s, p in rec["map"]}
+        cur = None
+        if isinstance(rec.get("pos"), list):
+            cur = {s: p for s, p in rec["pos"]}
+            if rec["map"] is not None and sorted(rec["pos"]) != sorted(rec["map"]):
+                fails.append({"sig": "getitem-disagrees-with-map", "msg": f"{label}batch {bi}: __getitem__ {rec['pos']}, _map {rec['map']}"})
+        elif isinstance(rec.get("pos"), str):
+            fails.append({"sig": "getitem-failed-for-registered", "msg": f"{label}batch {bi}: looking up every registered simulant gave {rec['pos']}"})
+            cur = None if rec["map"] is None else {s: p for s, p in rec["map"]}
+        elif rec["map"] is not None:         # observations made by an instrumented manager carry `_map` only
+            cur = {s: p for s, p in rec["map"]}
         if not b["sims"]:
             if rec["outcome"] != "ok" or rec["map"] != rec["before"]:
                 fails.append({"sig": "empty-batch-not-noop", "msg": f"{label}batch {bi}: {rec['outcome']}"})
             continue
-        if dup:
+        if b.get("bad"):
+            # a key column of a type the index cannot hash: rejected rather than mapped
+            if rec["outcome"] == "ok":
+                fails.append({"sig": "unhashable-keys-mapped", "msg": f"{label}batch {bi}: a {b['bad']['dtype']} key column was accepted"})
+            elif rec["outcome"] != "err:randomness":
+                fails.append({"sig": "unhashable-keys-wrong-error", "msg": f"{label}batch {bi}: {rec['outcome']}"})
+            if rec["map"] != rec["before"] or (cur or {}) != prev:
+                fails.append({"sig": "rejected-update-changed-map", "msg": f"{label}batch {bi}: map before {rec['before']} after {rec['map']}"})
+        elif dup:
             if rec["outcome"] == "ok":
                 fails.append({"sig": "duplicate-keys-mapped", "msg": f"{label}batch {bi}: duplicate keys were accepted"})
             elif rec["outcome"] != "err:randomness":
                 fails.append({"sig": "duplicate-keys-wrong-error", "msg": f"{label}batch {bi}: {rec['outcome']}"})
-            if rec["outcome"] != "ok" and rec["map"] != rec["before"]:
+            if rec["outcome"] != "ok" and (rec["map"] != rec["before"] or (cur or {}) != prev):
                 fails.append({"sig": "rejected-update-changed-map", "msg": f"{label}batch {bi}: map before {rec['before']} after {rec['map']}"})
+        elif rec["outcome"] == "err:LoopBudgetExceeded":
+            fails.append({"sig": "timeout", "msg": f"{label}batch {bi}: the collision loop ran more than size+8 = {size + 8} passes on a block that is not over-full and whose size is coprime to the salt shift (stopped by the harness)"})
         else:
-            if rec["outcome"] != "ok":
+            if rec["outcome"] != "ok" and "simulant_index" in ic.names_of(hist):
+                fails.append({"sig": "key-column-named-simulant_index", "msg": f"{label}batch {bi}: a key column called 'simulant_index' (the name IndexMap gives its own index level) cannot be registered: {rec['outcome']}"})
+            elif rec["outcome"] != "ok":
                 fails.append({"sig": "unique-keys-rejected", "msg": f"{label}batch {bi}: {rec['outcome']}"})
-        if rec["outcome"] == "ok":
+        if rec["outcome"] == "ok" and not b.get("bad"):
             registered |= set(cks)
         if cur is not None:
-            pos = [p for _, p in rec["map"]]
+            pos = list(cur.values())
             if any(not isinstance(p, int) for p in pos):
-                fails.append({"sig": "position-missing", "msg": f"{label}batch {bi}: non-integer position in {rec['map']}"})
+                fails.append({"sig": "position-missing", "msg": f"{label}batch {bi}: non-integer position in {sorted(cur.items())}"})
             else:
                 if len(set(pos)) != len(pos):
-                    fails.append({"sig": "not-injective", "msg": f"{label}batch {bi}: two simulants share a position: {rec['map']}"})
+                    fails.append({"sig": "not-injective", "msg": f"{label}batch {bi}: two simulants share a position: {sorted(cur.items())}"})
                 if any(p < 0 or p >= size for p in pos):
-                    fails.append({"sig": "out-of-range", "msg": f"{label}batch {bi}: position outside [0,{size}): {rec['map']}"})
+                    fails.append({"sig": "out-of-range", "msg": f"{label}batch {bi}: position outside [0,{size}): {sorted(cur.items())}"})
             moved = {s: (p, cur.get(s)) for s, p in prev.items() if cur.get(s) != p}
             if moved:
                 fails.append({"sig": "position-changed", "msg": f"{label}batch {bi}: earlier positions changed (sim: (before, after)) {moved}"})
             if rec["outcome"] == "ok":
-                sims_now = [s for s, _ in rec["map"]]
                 want = sorted(list(prev) + b["sims"])
-                if sorted(sims_now) != want:
-                    fails.append({"sig": "simulants-lost-or-invented", "msg": f"{label}batch {bi}: simulants in map {sorted(sims_now)}, expected {want}"})
+                if sorted(cur) != want:
+                    fails.append({"sig": "simulants-lost-or-invented", "msg": f"{label}batch {bi}: simulants in map {sorted(cur)}, expected {want}"})
                 # every simulant still carries its own key
                 given = {s: ic.plain_case_key(types, k) for s, k in zip(b["sims"], b["keys"])}
-                for s, k in rec["keys"]:
+                for s, k in rec["keys"] or []:
                     if s in given and k != given[s]:
                         fails.append({"sig": "key-misattached", "msg": f"{label}batch {bi}: simulant {s} carries key {k}, registered with {given[s]}"})
                         break
             prev = cur
-        if isinstance(rec.get("get"), list) and cur is not None:
-            want = [cur.get(s) for s in b["get"]]
-            if rec["get"] != want:
-                fails.append({"sig": "getitem-disagrees-with-map", "msg": f"{label}batch {bi}: get {b['get']} → {rec['get']}, map says {want}"})
-        if rec.get("get") == "err:key" and cur is not None and all(s in cur for s in b["get"]):
-            fails.append({"sig": "getitem-keyerror-for-registered", "msg": f"{label}batch {bi}: get {b['get']}"})
+        if b.get("get") is not None:
+            known = cur or {}
+            if all(s in known for s in b["get"]):
+                want = [known[s] for s in b["get"]]          # request order, repeats included
+                if rec.get("get") != want:
+                    sig = "getitem-keyerror-for-registered" if rec.get("get") == "err:key" else "getitem-wrong-answer"
+                    fails.append({"sig": sig, "msg": f"{label}batch {bi}: get[{b.get('get_kind', 'index')}] {b['get']} → {rec.get('get')}, expected {want}"})
+            elif isinstance(rec.get("get"), list):
+                fails.append({"sig": "getitem-answers-for-unregistered", "msg": f"{label}batch {bi}: get {b['get']} → {rec['get']} although {[s for s in b['get'] if s not in known]} was never registered"})
     return fails
 
 
 def history_tags(hist, obs):
     t = [f"ncols={len(hist['cols'])}"] + ["type:" + x for x in set(hist["cols"])]
+    if hist.get("mode"):
+        t.append("mode:" + hist["mode"])
+    if hist.get("names"):
+        t.append("names:with-simulant_index" if "simulant_index" in hist["names"] else "names:custom")
+        if "simulant_index" in hist["names"]:
+            t.append(f"simulant_index-column:ncols={len(hist['cols'])}")
+    for d in hist.get("dtypes") or []:
+        if d:
+            t.append("dtype:" + d)
     if not hist["cols"]:
         t.append("no-crn")
+    if hist["size"] <= 2:
+        t.append(f"size={hist['size']}")
     used, registered = set(), set()
-    for b, rec in zip(hist["batches"], obs):
+    for bi, (b, rec) in enumerate(zip(hist["batches"], obs)):
         t.append("update:" + rec["outcome"])
         cks = [ic.canon_key(hist["cols"], k) for k in b["keys"]] if hist["cols"] else []
-        if len(set(cks)) != len(cks):
+        if b.get("bad"):
+            t.append("unhashable:" + b["bad"]["dtype"])
+        elif len(set(cks)) != len(cks):
             t.append("dup:inside-batch")
-        if set(cks) & registered:
+        if set(cks) & registered and not b.get("bad"):
             t.append("dup:with-registered-key")
         if rec["outcome"] == "ok":
             registered |= set(cks)
         elif rec["before"] is None:
             t.append("rejected-while-map-empty")
         t.append("clock:" + b["t"][0])
+        for k, v in (b.get("frame") or {}).items():
+            t.append(f"frame:{k}" + (f"={v}" if k == "index_name" else ""))
         if not b["sims"]:
             t.append("empty-batch")
+        if len(b["sims"]) == 1:
+            t.append("batch-of-one" + ("-after-first" if bi else ""))
+        if bi and prev_sims and b["sims"] and min(b["sims"]) < max(prev_sims):
+            t.append("labels-interleave")
+        prev_sims = (prev_sims if bi else []) + b["sims"]
         if "raw" in rec and rec["outcome"] == "ok":
             final = dict((s, p) for s, p in rec["map"])
             raws = rec["raw"]
             moved = [s for s, r in zip(b["sims"], raws) if final.get(s) != r]
             if any(r in used for r in raws):
                 t.append("collision-with-old")
+                if len(set(raws)) == len(raws):
+                    t.append("collision-with-old-only(no-internal)")
             if len(set(raws)) != len(raws):
                 t.append("collision-in-batch")
             if moved:
                 t.append("rehashed")
+            p_ = rec.get("passes", 0)
+            t.append("loop-passes:" + ("0" if p_ == 0 else "1" if p_ == 1 else "2" if p_ == 2 else "3+"))
+            # a bystander: its own first hash is free and unshared, but a re-hashed key of the same batch aimed at it
+            free = [r for r in raws if raws.count(r) == 1 and r not in used]
+            if moved and free and rec.get("passes", 0) >= 1:
+                t.append("noncolliding-next-to-rehashed")
             if any(x < 0 for col in rec["ten"] for x in col):
                 t.append("negative-ten-digit")
             used = set(final.values())
+            if len(final) == hist["size"]:
+                t.append("block-exactly-full")
             if any(p == hist["size"] - 1 for p in final.values()):
                 t.append("hit:last-slot")
             if any(p == 0 for p in final.values()):
                 t.append("hit:slot-0")
         if rec.get("get") is not None:
             t.append("get:" + (rec["get"] if isinstance(rec["get"], str) else "ok"))
+            t.append("get-kind:" + b.get("get_kind", "index"))
+            if isinstance(rec["get"], list):
+                g = b["get"]
+                if len(set(g)) != len(g):
+                    t.append("get:repeated-labels")
+                if g != sorted(g):
+                    t.append("get:unsorted")
+                if not g:
+                    t.append("get:empty")
     return t
 
 
 # ------------------------------------------------------------------ whole-simulation variant
 
 def gen_sim(rng: random.Random):
-    """a small real simulation; the block size max(map_size, 10*population) is kept coprime to ncols*111111 (F11)"""
+    """a small real simulation; the block size max(map_size, 10*population) is kept coprime to ncols*111111 (F11).
+    Variants (LESSONS.md 2, 4, 7, 10): who draws (the registering component or another one), draws inside the initializer
+    right after registration, registration in two calls per creation, the whole frame (extra columns, other column
+    order than key_columns) handed to register_simulants, DateTimeClock or SimpleClock, draws requested for every
+    label ever created (an untracked simulant included)."""
     keycols = rng.choice([["k1"], ["k3"], ["k1", "k2"], ["k2", "k3"], ["k3", "k1"], ["k1", "k2", "k3"], ["k2", "k3", "k1"]])
     ncols = len(keycols)
     births, steps = rng.randint(0, 3), rng.randint(1, 5)
@@ -236,7 +482,10 @@ def gen_sim(rng: random.Random):
         need = max(10 * pop + 1, pop + births * steps + 2)
         map_size = rng.choice(ic.coprime_sizes(ncols, need, need + 60))
     return {"kind": "sim", "keycols": keycols, "pop": pop, "map_size": map_size, "births": births, "steps": steps,
-            "seed": rng.randint(0, 9)}
+            "seed": rng.randint(0, 9), "clock": rng.choice(["datetime", "datetime", "simple"]),
+            "split": rng.random() < 0.35, "whole_frame": rng.random() < 0.5, "draw_at_creation": rng.random() < 0.5,
+            "drawer": rng.random() < 0.5, "untrack": rng.random() < 0.4, "zero_births_call": births == 0,
+            "f31": "k3" in keycols and rng.random() < 0.5}
 
 
 def run_sim(case):
@@ -246,7 +495,17 @@ def run_sim(case):
     from vivarium import Component
     from vivarium.framework.engine import SimulationContext
 
-    keycols = case["keycols"]
+    # F31: the state table itself may have a column called 'simulant_index' that is a CRN key (k3 under another name)
+    alias = {"k3": "simulant_index"} if case.get("f31") else {}
+    keycols = [alias.get(c, c) for c in case["keycols"]]
+    created = []
+    draws = {}
+
+    def record(streams, index, step):
+        for i, s in enumerate(streams):
+            dr = s.get_draw(index)
+            for sim in index:
+                draws.setdefault(int(sim), []).append([step, i, float(dr[sim])])
 
     class Pop(Component):
         @property
@@ -255,44 +514,86 @@ def run_sim(case):
 
         @property
         def columns_created(self):
-            return ["k1", "k2", "k3"]
+            return ["k1", "k2", alias.get("k3", "k3")]
+
+        @property
+        def columns_required(self):
+            return ["tracked"]
 
         def setup(self, b):
-            self.crn = b.randomness.get_stream("init", initializes_crn_attributes=True)
             self.streams = [b.randomness.get_stream(f"d{i}") for i in range(3)]
+            self.at_creation = [b.randomness.get_stream(f"c{i}") for i in range(3)]
             self.reg = b.randomness.register_simulants
             self.creator = b.population.get_simulant_creator()
-            self.clock = b.time.clock()
-            self.draws = {}
             self.n = 0
+            self.step_no = 0
 
         def on_initialize_simulants(self, d):
             n = len(d.index)
             if n == 0:
+                # zero-count births (LESSONS.md 6): registering an empty frame is legal and must change nothing
+                self.reg(pd.DataFrame({c: pd.Series([], dtype=float) for c in [alias.get("k3", "k3"), "k1", "k2"]}, index=d.index)[keycols])
                 return
             k1 = [float(self.n + i) / 4 for i in range(n)]
             k3 = [(self.n + i) * 7 % 1000 for i in range(n)]
             self.n += n
-            df = pd.DataFrame({"k1": k1, "k2": d.creation_time, "k3": k3}, index=d.index)
-            self.reg(df[keycols])
-            self.population_view.update(df)
+            # the frame has more columns than the keys and another column order than key_columns
+            df = pd.DataFrame({alias.get("k3", "k3"): k3, "junk": "x", "k1": k1, "k2": d.creation_time}, index=d.index)
+            parts = [df.iloc[: n // 2], df.iloc[n // 2:]] if case.get("split") and n > 1 else [df]
+            for part in parts:
+                self.reg(part if case.get("whole_frame") else part[keycols])
+            self.population_view.update(df[["k1", "k2", alias.get("k3", "k3")]])
+            created.extend(int(x) for x in d.index)
+            if case.get("draw_at_creation"):
+                record(self.at_creation, d.index, -1 - self.step_no)      # first use: inside the initializer
 
         def on_time_step(self, e):
-            if case["births"]:
+            self.step_no += 1
+            if case.get("untrack") and self.step_no == 2:
+                self.population_view.update(pd.Series(False, index=pd.Index([created[0]]), name="tracked"))
+            if case["births"] or case.get("zero_births_call"):
                 self.creator(case["births"])
-            pop = self.population_view.get(e.index)
-            for i, s in enumerate(self.streams):
-                dr = s.get_draw(pop.index)
-                for sim in pop.index:
-                    self.draws.setdefault(int(sim), []).append(float(dr[sim]))
+            if not case.get("drawer"):
+                # every label ever created, newest first: untracked simulants included, not in table order
+                record(self.streams, pd.Index(created[::-1]), self.step_no)
+
+    class Drawer(Component):
+        """another component owns the decision-point streams and draws through them"""
+
+        @property
+        def name(self):
+            return "drawer"
+
+        def setup(self, b):
+            self.streams = [b.randomness.get_stream(f"d{i}") for i in range(3)]
+            self.step_no = 0
+
+        def on_time_step_cleanup(self, e):
+            self.step_no += 1
+            record(self.streams, pd.Index(created[::-1]), self.step_no)
+
+    class PopNoStreams(Pop):
+        def setup(self, b):
+            self.streams = []
+            self.at_creation = [b.randomness.get_stream(f"c{i}") for i in range(3)]
+            self.reg = b.randomness.register_simulants
+            self.creator = b.population.get_simulant_creator()
+            self.n = 0
+            self.step_no = 0
 
     SimulationContext._clear_context_cache()
-    p = Pop()
-    sim = SimulationContext(components=[p], configuration={
-        "population": {"population_size": case["pop"]},
-        "randomness": {"key_columns": keycols, "map_size": case["map_size"], "random_seed": case["seed"]},
-        "time": {"start": {"year": 2020, "month": 1, "day": 1}, "end": {"year": 2020, "month": 1, "day": 1 + case["steps"]},
-                 "step_size": 1}}, logging_verbosity=0)
+    comps = [PopNoStreams(), Drawer()] if case.get("drawer") else [Pop()]
+    conf = {"population": {"population_size": case["pop"]},
+            "randomness": {"key_columns": keycols, "map_size": case["map_size"], "random_seed": case["seed"]}}
+    kw = {}
+    if case.get("clock") == "simple":
+        conf["time"] = {"start": 0, "end": case["steps"], "step_size": 1}
+        kw["plugin_configuration"] = {"required": {"clock": {"controller": "vivarium.framework.time.SimpleClock",
+                                                             "builder_interface": "vivarium.framework.time.TimeInterface"}}}
+    else:
+        conf["time"] = {"start": {"year": 2020, "month": 1, "day": 1}, "end": {"year": 2020, "month": 1, "day": 1 + case["steps"]},
+                        "step_size": 1}
+    sim = SimulationContext(components=comps, configuration=conf, logging_verbosity=0, **kw)
     sim.setup()
     im = sim._randomness._key_mapping
     out = {"size": len(im), "maps": [], "draws": {}}
@@ -300,16 +601,24 @@ def run_sim(case):
         # fewer slots than simulants: the collision loop could not terminate; report the size, do not run
         out["skipped"] = "block smaller than the planned population"
         return out
+
+    def positions():
+        """through `__getitem__`, newest label first"""
+        if not created:
+            return []
+        req = created[::-1]
+        return sorted([int(s_), ic._as_pos(p_)] for s_, p_ in zip(req, list(im[pd.Index(req)])))
+
     try:
         sim.initialize_simulants()
-        out["maps"].append(ic.dump_map(im)[0])
+        out["maps"].append(positions())
         for _ in range(case["steps"]):
             sim.step()
-            out["maps"].append(ic.dump_map(im)[0])
+            out["maps"].append(positions())
     except Exception as e:  # noqa: BLE001 - a crash of the simulation is an observation
         out["crash"] = ic.outcome_of(e)
-        out["maps"].append(ic.dump_map(im)[0])
-    out["draws"] = {str(k): v for k, v in p.draws.items()}
+    out["created"] = len(created)
+    out["draws"] = {str(k): v for k, v in draws.items()}
     return out
 
 
@@ -320,32 +629,113 @@ def oracle_sim(case, obs):
         fails.append({"sig": "block-size-rule", "msg": f"block size {obs['size']}, expected max(map_size, 10*population) = {want}"})
     if obs.get("crash"):
         fails.append({"sig": "simulation-crashed", "msg": f"the simulation (unique keys, block large enough) stopped with {obs['crash']}"})
+    if obs.get("skipped"):
+        return fails
     prev = {}
     for i, m in enumerate(obs["maps"]):
         cur = dict((s, p) for s, p in (m or []))
+        n_expected = case["pop"] + case["births"] * i          # from the configuration, not from the run
+        if len(cur) != n_expected and not obs.get("crash"):
+            fails.append({"sig": "simulants-lost-or-invented", "msg": f"sim step {i}: {len(cur)} simulants have a position, {n_expected} were created"})
         pos = list(cur.values())
         if any(not isinstance(p, int) for p in pos):
             fails.append({"sig": "position-missing", "msg": f"sim step {i}: {m}"})
             break
         if len(set(pos)) != len(pos):
             fails.append({"sig": "not-injective", "msg": f"sim step {i}: {m}"})
-        if any(p < 0 or p >= obs["size"] for p in pos):
-            fails.append({"sig": "out-of-range", "msg": f"sim step {i}: size {obs['size']}: {m}"})
+        if any(p < 0 or p >= want for p in pos):
+            fails.append({"sig": "out-of-range", "msg": f"sim step {i}: size {want}: {m}"})
         moved = {s: (p, cur.get(s)) for s, p in prev.items() if cur.get(s) != p}
         if moved:
             fails.append({"sig": "position-changed", "msg": f"sim step {i}: {moved}"})
         prev = cur
-    # two simulants never draw the same numbers at three decision points of the same step
+    # two simulants never draw the same numbers at the three decision points of one step
     seen = {}
     for s, tr in obs["draws"].items():
-        for j in range(0, len(tr) - 2, 3):
-            # trajectories start at different steps for simulants born later: key by position from the end
-            k = (len(tr) - j, tuple(tr[j:j + 3]))
-            if k in seen and seen[k] != s:
-                fails.append({"sig": "two-simulants-same-draws", "msg": f"simulants {seen[k]} and {s} drew {k[1]} at the same step"})
-                return fails
-            seen[k] = s
+        by_step = {}
+        for step, i, v in tr:
+            by_step.setdefault(step, {})[i] = v
+        for step, d in by_step.items():
+            if len(d) == 3:
+                k = (step, d[0], d[1], d[2])
+                if k in seen and seen[k] != s:
+                    fails.append({"sig": "two-simulants-same-draws", "msg": f"simulants {seen[k]} and {s} drew {k[1:]} at step {step}"})
+                    return fails
+                seen[k] = s
+    if not obs.get("crash") and case["steps"] >= 1 and not obs["draws"]:
+        fails.append({"sig": "harness-no-draws", "msg": "no draws were recorded"})
     return fails
+
+
+def lessons_boundary():
+    """edge cases added by the audit against notes/LESSONS.md (items 3, 5, 6, 9, 10)"""
+    t = ["time", T0]
+    out = []
+    # 6: block sizes 2 and 5 filled exactly (the last key has to walk to the only free slot), one simulant at a time at the end
+    out.append({"kind": "hist", "mode": "boundary", "size": 2, "cols": ["int"], "tunit": "ns",
+                "batches": [{"t": t, "sims": [1, 0], "keys": [[1], [2]], "get": [0, 1, 0], "get_kind": "list"}]})
+    out.append({"kind": "hist", "mode": "boundary", "size": 2, "cols": ["float"], "tunit": "ns",
+                "batches": [{"t": ["int", 0], "sims": [0], "keys": [[0.5]], "get": [0]},
+                            {"t": ["int", 1], "sims": [1], "keys": [[1.5]], "get": [1, 0], "get_kind": "array"}]})
+    out.append({"kind": "hist", "mode": "boundary", "size": 5, "cols": ["int"], "tunit": "ns",
+                "batches": [{"t": t, "sims": [4, 2, 0], "keys": [[0], [1], [2]], "get": None},
+                            {"t": t, "sims": [3], "keys": [[3]], "get": [3, 0, 2, 4], "get_kind": "series"},
+                            {"t": ["time", T0 + DAY], "sims": [1], "keys": [[4]], "get": [0, 1, 2, 3, 4], "get_kind": "range"}]})
+    # 9 (seeded C03-1): a dense first batch, then single newcomers without internal collision whose first hash is taken
+    size, t0, t1 = 17, 0, 1
+    first, seen = [], set()
+    v = 0
+    while len(first) < 11:
+        h = ic.ref_hash_int([v], t0, size)
+        if h not in seen:
+            seen.add(h)
+            first.append(v)
+        v += 1
+    late = [w for w in range(100, 400) if ic.ref_hash_int([w], t1, size) in seen][:3]
+    out.append({"kind": "hist", "mode": "boundary", "size": size, "cols": ["int"], "tunit": "ns",
+                "batches": [{"t": ["int", t0], "sims": list(range(11)), "keys": [[x] for x in first], "get": None}]
+                + [{"t": ["int", t1], "sims": [20 - i], "keys": [[w]], "get": list(range(11)) + [20 - i], "get_kind": "index"}
+                   for i, w in enumerate(late)]})
+    # 9 (seeded C04-1): four keys sharing every hash, and bystanders sitting exactly where the re-hashes land
+    size, tt = 23, 4
+    group = [w for w in range(0, 3000) if ic.ref_hash_int([w], tt, size) == 7][:4]
+    by = []
+    for lvl in (1, 2, 3):
+        q = ic.ref_hash_int([group[0]], lvl, size)
+        by += [w for w in range(0, 3000) if ic.ref_hash_int([w], tt, size) == q and w not in group][:1]
+    keys = [[group[0]], [by[0]], [group[1]], [group[2]], [by[1]], [group[3]]] + [[w] for w in by[2:]]
+    out.append({"kind": "hist", "mode": "boundary", "size": size, "cols": ["int"], "tunit": "ns",
+                "batches": [{"t": ["int", tt], "sims": list(range(len(keys)))[::-1], "keys": keys, "get": list(range(len(keys))), "get_kind": "int32"}]})
+    # 3, 2: narrow / unsigned / float32 dtypes, column names of a real model, frame columns in another order with extras,
+    # named index, RangeIndex, every clock kind (a float clock only contributes its fractional part: 0.0 and 1.0 salt alike)
+    out.append({"kind": "hist", "mode": "boundary", "size": 29, "cols": ["int", "float", "time"], "tunit": "us",
+                "names": ["age_group", "entrance_draw", "entrance_time"], "dtypes": ["uint8", "float32", None],
+                "batches": [{"t": ["float", 0.0], "sims": [0, 1, 2], "keys": [[200, 0.5, T0], [0, 1.5, T0], [7, 0.25, T0 - DAY]],
+                             "frame": {"order": [2, 0, 1], "extra": True, "index_name": "simulant_index", "range": True}, "get": [2, 1, 0]},
+                            {"t": ["float", 1.0], "sims": [5, 3], "keys": [[255, 0.5, T0], [1, 1.5, T0]],
+                             "frame": {"order": [1, 2, 0], "index_name": "foo"}, "get": [5, 3, 0], "get_kind": "list"},
+                            {"t": ["tz", T0 + DAY], "sims": [4], "keys": [[3, 3.75, T0 + DAY]], "frame": {"extra": True}, "get": []},
+                            {"t": ["npint", 3], "sims": [6], "keys": [[3, 3.75, T0]], "get": [6, 4], "get_kind": "series"}]})
+    # 10 (F31): key columns named like IndexMap's own index level, alone / first / middle / last of 1-3 columns; the frame's
+    # index carries the same name; collisions, a later batch, a duplicate and lookups as for any other schema
+    for names, cols in ((["simulant_index"], ["int"]), (["simulant_index", "b"], ["float", "int"]),
+                        (["a", "simulant_index", "c"], ["int", "time", "float"]), (["a", "b", "simulant_index"], ["int", "int", "int"])):
+        def key(i, cols=cols):
+            return [{"int": i, "float": i / 4, "time": T0 + i * DAY}[c] for c in cols]
+        out.append({"kind": "hist", "mode": "boundary", "size": 5, "cols": cols, "names": names, "tunit": "ns",
+                    "batches": [{"t": ["int", 0], "sims": [10, 11, 12], "keys": [key(5), key(6), key(7)],
+                                 "frame": {"index_name": "simulant_index", "extra": True}, "get": [11, 12, 10, 11], "get_kind": "list"},
+                                {"t": ["int", 0], "sims": [13], "keys": [key(6)], "get": [13]},
+                                {"t": ["int", 1], "sims": [3], "keys": [key(8)], "frame": {"order": list(range(len(cols)))[::-1]},
+                                 "get": [3, 12, 10], "get_kind": "series"}]})
+    # 3, 10: a key column of a type the index cannot hash – as the very first registration and after a good one
+    out.append({"kind": "hist", "mode": "boundary", "size": 19, "cols": ["int", "float"], "tunit": "ns",
+                "batches": [{"t": t, "sims": [0, 1], "keys": [[1, 0.5], [2, 0.5]], "bad": {"col": 1, "dtype": "str"}, "get": [0]},
+                            {"t": t, "sims": [0, 1], "keys": [[1, 0.5], [2, 0.5]], "get": [1, 0]},
+                            {"t": t, "sims": [2, 3], "keys": [[3, 0.5], [4, 0.5]], "bad": {"col": 0, "dtype": "bool"}, "get": [0, 1]},
+                            {"t": t, "sims": [4, 5], "keys": [[3, 0.5], [4, 0.5]], "bad": {"col": 0, "dtype": "category"}, "get": [4]},
+                            {"t": t, "sims": [2, 3], "keys": [[3, 0.5], [4, 0.5]], "get": [3, 2, 1, 0]}]})
+    return out
 
 
 class C03(Prop):
@@ -364,7 +754,7 @@ class C03(Prop):
                      "Series.reindex, sort_index, MultiIndex .loc on the first level; numpy int64 wrap-around and floor modulo"]
     n_quick = 150
     n_thorough = 2000
-    case_timeout = 10
+    case_timeout = 15
     workers = 4
     rule = ("cases = registration histories on a bare IndexMap (and small real simulations); distinct by case hash; "
             "non-trivial = at least one key was moved by collision resolution or a duplicate batch was rejected")
@@ -399,7 +789,16 @@ class C03(Prop):
              "batches": [{"t": t, "sims": [3, 1, 2], "keys": [[-1, T0], [2**62, T0 + DAY], [90001, -DAY - 10**9]], "get": [1, 2, 3]},
                          {"t": ["time", T0 + DAY], "sims": [0], "keys": [[-1, T0 + DAY]], "get": [0, 3]}]},
         ]
+        out += lessons_boundary()
         out.append({"kind": "sim", "keycols": ["k1"], "pop": 6, "map_size": 61, "births": 3, "steps": 4, "seed": 3})
+        out.append({"kind": "sim", "keycols": ["k3", "k1"], "pop": 4, "map_size": 41, "births": 2, "steps": 3, "seed": 2, "clock": "simple",
+                    "split": True, "whole_frame": True, "draw_at_creation": True, "drawer": True, "untrack": True})
+        out.append({"kind": "sim", "keycols": ["k3"], "pop": 5, "map_size": 53, "births": 2, "steps": 3, "seed": 6, "f31": True,
+                    "draw_at_creation": True, "whole_frame": True})
+        out.append({"kind": "sim", "keycols": ["k1", "k3", "k2"], "pop": 3, "map_size": 47, "births": 1, "steps": 2, "seed": 7, "f31": True,
+                    "split": True, "drawer": True, "clock": "simple"})
+        out.append({"kind": "sim", "keycols": ["k2", "k1"], "pop": 1, "map_size": 1, "births": 0, "steps": 2, "seed": 4,
+                    "whole_frame": True, "draw_at_creation": True, "untrack": False, "zero_births_call": True})
         out.append({"kind": "sim", "keycols": ["k1", "k2"], "pop": 10, "map_size": 5, "births": 1, "steps": 3, "seed": 0})
         out.append({"kind": "sim", "keycols": ["k3", "k2", "k1"], "pop": 3, "map_size": 43, "births": 2, "steps": 5, "seed": 1})
         return out
@@ -456,7 +855,10 @@ class C03(Prop):
 
     def tags(self, case, obs):
         if case["kind"] == "sim":
-            return ["sim", f"sim-ncols={len(case['keycols'])}"] + (["sim-size-from-population"] if 10 * case["pop"] > case["map_size"] else ["sim-size-from-config"])
+            return (["sim", f"sim-ncols={len(case['keycols'])}", "sim-clock:" + case.get("clock", "datetime")]
+                    + (["sim-size-from-population"] if 10 * case["pop"] > case["map_size"] else ["sim-size-from-config"])
+                    + ["sim:" + k for k in ("split", "whole_frame", "draw_at_creation", "drawer", "untrack", "f31") if case.get(k)]
+                    + (["sim:births=0"] if not case["births"] else []) + (["sim:creator(0)"] if case.get("zero_births_call") and not case["births"] else []) + (["sim:pop=1"] if case["pop"] == 1 else []))
         return ["hist"] + history_tags(case, obs["batches"])
 
     def sample_view(self, case, obs):
